@@ -44,9 +44,9 @@ func freePass() {
 					var class, detail string
 					done := make(chan struct{})
 					go func() { class, detail, _ = runOne(cfg, engine.NewReplayChooser(nil)); close(done) }()
-					select {
-					case <-done:
-					case <-time.After(60 * time.Second):
+					// not a wall-clock limit: WaitDone gives up only when the whole process is blocked for
+					// good (60 consecutive quiet one-second observations); slowness never counts
+					if !engine.WaitDone(done, 60) {
 						b, _ := json.Marshal(cfg)
 						fmt.Printf("FREE-RUN-HANG config=%s\n", b)
 						os.Exit(4)
@@ -127,13 +127,13 @@ func loopbackPing() {
 	var data []byte
 	var perr error
 	go func() {
-		data, _, perr = bot.PingAndListTimeout(l.Addr().(*net.TCPAddr).String(), 20*time.Second)
+		// the deadline only exercises the entry point's deadline handling; it is far beyond anything
+		// a loaded machine needs, and the wait below ends only when the process is blocked for good
+		data, _, perr = bot.PingAndListTimeout(l.Addr().(*net.TCPAddr).String(), 30*time.Minute)
 		close(done)
 	}()
-	select {
-	case <-done:
-	case <-time.After(30 * time.Second):
-		engine.HarnessError("loopback ping did not finish within 30 s")
+	if !engine.WaitDone(done, 60) {
+		engine.HarnessError("loopback ping: every thread of the process is blocked and the ping has not finished")
 	}
 	o := &Obs{PingData: data, PingErr: perr}
 	if class, detail := judge(Config{Family: "ping-tcp", Ping: true}, o); class != "" {
